@@ -37,6 +37,9 @@ def main():
             sys.exit(1 if bad else 0)
         results, rejected, exc, S = run_native(po, d["shape"], d["inputs"])
         bad = [x for x in results if x[0] == clause and not x[1]]
+        from .runner import _exc_hit
+        if _exc_hit(clause, exc):
+            bad = [(clause, False, exc)]
         print(json.dumps({"failed_obligation": d["failed_obligation"], "inputs": d["inputs"], "clause_false_natively": bool(bad),
                           "detail": [x[2] for x in bad][:3], "native_exception": exc, "outside_precondition": rejected}, indent=1, default=str))
         sys.exit(1 if bad else 0)
